@@ -31,6 +31,12 @@ OUTSIDE = ["draw (matplotlib)", "numerical fall times (stub contract)"]
 def setup():
     l1.setup()
     l2.setup()
+    from symx import jsonfacade
+    import pulser.json.abstract_repr.deserializer as des
+    import pulser.json.abstract_repr.serializer as ser
+
+    jsonfacade.install()
+    facade.install(extra_np=(des, ser))
 
 
 def setup_concrete():
@@ -69,6 +75,8 @@ def op_library(tag):
         "eom_off": ["disable_eom", "g"],
         "declare_again": ["declare", "g", "ram_glob"],
         "declare_used": ["declare", "g2", "ryd_glob"],
+        "slm_bad_dmm": ["config_slm", ["q0", "q1"], "dmm_7"],
+        "dmap_bad": ["config_dmap", {"q0": 1.0}, "dmm_7"],
         "measure": ["measure", "ground-rydberg"],
         "measure_bad": ["measure", "XY"],
     }
@@ -204,7 +212,7 @@ def h_readonly(shape):
         prog = [["declare", "g", "ryd_glob"], ["declare", "l", "ryd_loc", "q0"],
                 ["add", "g", ["cp", 16, S("a0", lo=0, hi=10), S("d0", "fix", lo=-20, hi=20), 0.0, 0.25]],
                 ["add", "l", ["pulse", ["ramp", 12, S("a1", lo=0, hi=10), S("a2", lo=0, hi=10)], ["const", 12, 0.0], 1.0]],
-                ["delay", "g", 16, True], ["align", ["g", "l"], True],
+                ["delay", "g", 16, True], ["align", ["g", "l"], True], ["delay", "l", 16, False], ["align", ["l", "g"], False],
                 ["phase_shift", 0.5, ["q0", "q1", "q2"], "ground-rydberg"]]
         if shape.get("eom"):
             prog += [["enable_eom", "g", 1.0, 0.0, 0.0], ["add_eom", "g", 16, 0.0]]
@@ -233,6 +241,16 @@ def h_readonly(shape):
             pulser.sampler.sample(seq)
         elif what == "build_copy":
             seq.build()
+        elif what == "to_abstract_repr":
+            from symx import jsonfacade
+
+            jsonfacade.reset()
+            seq.to_abstract_repr()
+        elif what == "serialize":
+            from symx import jsonfacade
+
+            jsonfacade.reset()
+            seq._serialize()
         return [("readonly:%s" % what, l2.snap_equal(before, l2.snapshot(seq)))]
 
     return h
@@ -274,7 +292,7 @@ def kernels(tier):
         for call in ("add", "delay", "phase_shift", "enable_eom", "add_own_badchannel", "delay_own_badchannel", "add_two_args"):
             for own in (False, True):
                 ks.append(("unknown_var", dict(device="virt_maxseq", prefix=pre, call=call, own_var=own)))
-    for what in ("str", "get_duration", "estimate", "phase_ref", "queries", "sample", "build_copy"):
+    for what in ("str", "get_duration", "estimate", "phase_ref", "queries", "sample", "build_copy", "to_abstract_repr", "serialize"):
         for eom in (False, True):
             if what == "sample" and eom:
                 continue  # EOM needs modulation; sampling needs a concrete timeline (no stubbed fall times)
